@@ -202,4 +202,72 @@ def bounded(pb, interp, rng, tier):
                     fail("__call__", "array==scalar", inst, j)
         except Exception as ex_:
             fail("__call__", "array.raises", inst, f"{type(ex_).__name__}: {str(ex_)[:100]}")
+    # ---- coefficient counts 1 and 2, negative reference phases, times given in other time scales, reordered subsets
+    def entry(tmid, rphase, ncoef, f0="100.000000000000", span=60):
+        cs = ["1.00000000000000000e-01", "2.00000000000000000e-03", "-3.00000000000000000D-06", "4.00000000000000000e-09"][:ncoef]
+        return {"tmid": tmid, "rphase": rphase, "f0": f0, "span": span, "coeffs": cs}
+    for what, ents in (("ncoeff=1", [entry("56500.50000000000", "1000.250000", 1)]), ("ncoeff=2", [entry("56500.50000000000", "1000.250000", 2)]),
+                       ("negative-rphase", [entry("56500.50000000000", "-1000.250000", 3)]), ("negative-rphase-fraction-only", [entry("56500.50000000000", "-0.250000", 3)])):
+        ev += 1
+        distinct.add(what)
+        try:
+            p = pb.PhasePredictor.from_polyco(io.StringIO(make_polyco(ents)))
+            t = Time(ents[0]["tmid"], format="mjd", precision=9) + 7 * u.min
+            got = exact_phase(p(t))
+            want = tempo_phase(ents[0], time_minus_mjd_minutes(t, ents[0]["tmid"]))
+            if abs(got - want) > Fraction(1, 10 ** 8):
+                fail("from_polyco", f"parse.{what}.value", what, f"error {float(got - want):.3e}")
+        except Exception as e:
+            fail("from_polyco", f"parse.{what}.raises", what, f"{type(e).__name__}: {str(e)[:100]}")
+    two = [entry("56500.50000000000", "1000.250000", 3), entry("56500.54166666667", "361000.250000", 3)]
+    try:
+        p = pb.PhasePredictor.from_polyco(io.StringIO(make_polyco(two)))
+        tA = Time(two[0]["tmid"], format="mjd", precision=9) + (30 * u.min - 10 * u.s)       # 10 s before the end of entry A
+        wantA = exact_phase(p(tA))
+        for scale in ("tai", "tt", "tdb"):
+            ev += 1
+            distinct.add(("scale", scale))
+            try:
+                got = exact_phase(p(getattr(tA, scale)))
+                # the same instant: entry and result must not depend on the scale the Time is expressed in
+                # (dt measured in the other scale may differ by the scale's rate, < 1e-9 relative over a span)
+                if abs(got - wantA) > Fraction(1, 10 ** 3):
+                    fail("_get_index_and_dt", f"time-scale.{scale}.value", f"t = end of entry A - 10 s given in {scale}", f"differs by {float(got - wantA):.3f} cycles from the UTC form")
+            except Exception as e:
+                fail("_get_index_and_dt", f"time-scale.{scale}.raises", scale, f"{type(e).__name__}: {str(e)[:80]}")
+        for what, sub in (("reversed", lambda: p[::-1]), ("picked [1, 0]", lambda: p[[1, 0]])):
+            ev += 1
+            distinct.add(("subset", what))
+            try:
+                q = sub()
+                for ent in two:
+                    t = Time(ent["tmid"], format="mjd", precision=9) + 3 * u.min
+                    if abs(exact_phase(q(t)) - exact_phase(p(t))) > Fraction(1, 10 ** 8):
+                        fail("_get_index_and_dt", "subset-order.value", f"entries {what}", "prediction differs from the sorted predictor")
+                        break
+            except Exception as e:
+                fail("_get_index_and_dt", "subset-order.raises", f"entries {what}", f"{type(e).__name__}: {str(e)[:80]}")
+        # time_at at the ends of the validity range and for an array of phases
+        t_lo = Time(two[0]["tmid"], format="mjd", precision=9) - 30 * u.min
+        t_hi = Time(two[1]["tmid"], format="mjd", precision=9) + 30 * u.min
+        for what, t in (("span-start", t_lo), ("span-end", t_hi), ("100us-before-end", t_hi - 100 * u.us)):
+            ev += 1
+            distinct.add(("time_at-edge", what))
+            try:
+                back = p.time_at(p(t))
+                if abs((back - t).to_value(u.s)) > 1e-6:
+                    fail("time_at", "inverts-prediction.at-range-edge", what, f"off by {(back - t).to_value(u.s):.3e} s")
+            except Exception as e:
+                fail("time_at", "inverts-prediction.at-range-edge", what, f"{type(e).__name__}: {str(e)[:80]}")
+        ev += 1
+        distinct.add("time_at-array")
+        try:
+            ts = Time(two[0]["tmid"], format="mjd", precision=9) + np.array([-5.0, 1.0, 12.0]) * u.min
+            back = p.time_at(p(ts))
+            if np.max(np.abs((back - ts).to_value(u.s))) > 1e-6:
+                fail("time_at", "inverts-prediction.array-of-phases", "3 times", "wrong times")
+        except Exception as e:
+            fail("time_at", "inverts-prediction.array-of-phases", "3 times in one entry", f"{type(e).__name__}: {str(e)[:80]}")
+    except Exception as e:
+        fail("from_polyco", "two-entry.raises", "two entries", f"{type(e).__name__}: {str(e)[:100]}")
     return {"evaluations": ev, "distinct_nontrivial": max(2, len(distinct)), "failures": fails, "samples": samples}
